@@ -47,6 +47,11 @@ NEAR = [0, 1, 2, 31, 62, 63, 64, 65, 127, 128, 4031, 4032, 4033, 4095, 4096, 409
 # memberships that lie entirely inside ONE top-level group other than the first (64^3 indices per group)
 UPPER1 = [262144, 262145, 262207, 266239, 266240, 299999]
 UPPER3 = [786432 + x for x in (0, 1, 63, 4095, 4096)]            # bit sets and map-backed storages only
+# ... and inside the groups around the middle of the index space (2^23 = group 32) and the last one
+UPPER31 = [31 * 262144 + x for x in (0, 63, 4096, 262143)]
+UPPER32 = [32 * 262144 + x for x in (0, 1, 63, 4095, 4096, 262143)]
+UPPER63 = [63 * 262144 + x for x in (0, 1, 64, 4095, 262143)]
+UPPERHALF = UPPER32[:3] + [40 * 262144 + 5, 47 * 262144 + 4097] + UPPER63[-2:]     # nothing below 2^23
 
 
 def family(U):
@@ -126,10 +131,10 @@ def gen_scripts(seed, tier, want_par):
             a = [u for u in B4 if rng.random() < 0.5]
             b = [u for u in B4 if rng.random() < 0.6]
             combos.append((a, b))
-        for U in (UPPER1, UPPER3):
+        for U in (UPPER1, UPPER3, UPPER31, UPPER32, UPPER63, UPPERHALF):
             fu = family(U)
             rng.shuffle(fu)
-            for a in fu[: (6 if tier == "quick" else 40)]:
+            for a in fu[: ((6 if U in (UPPER1, UPPER3) else 3) if tier == "quick" else 40)]:
                 combos.append((a, [u for u in U if u in a or rng.random() < 0.6]))
         for _ in range(6 if tier == "quick" else 60):
             pool = B3[:4] + AROUND_TOP
